@@ -43,16 +43,20 @@ enum Op {
 /// flattened, which is what matters for "is the guard released before …")
 fn ops_of(body: &str) -> Vec<(usize, Op)> {
     let mut v = Vec::new();
-    let pats: [(&str, fn() -> Op); 9] = [
+    let pats: [(&str, fn() -> Op); 12] = [
         ("self.vfs.write().unwrap()", || Op::AcqVfsW),
         ("self.vfs.read().unwrap()", || Op::AcqVfsR),
         ("drop(vfs)", || Op::RelVfs),
         ("self.host.apply_change(", || Op::DbWrite),
+        // cancels and waits for every snapshot to be dropped, like the write itself
+        ("self.host.request_cancellation()", || Op::DbWrite),
         ("self.host.snapshot()", || Op::Snap),
         ("task::spawn_blocking(", || Op::Spawn),
         ("self.apply_vfs_change()", || Op::Call("apply_vfs_change".into())),
         ("self.set_vfs_file_content(", || Op::Call("set_vfs_file_content".into())),
         ("self.spawn_with_snapshot(", || Op::Call("spawn_with_snapshot".into())),
+        ("self.spawn_update_diagnostics(", || Op::Call("spawn_update_diagnostics".into())),
+        ("self.spawn_update_all_diagnostics()", || Op::Call("spawn_update_all_diagnostics".into())),
     ];
     for (p, mk) in pats.iter() {
         let mut start = 0;
@@ -79,6 +83,61 @@ fn lean_ops(ops: &[(usize, Op)]) -> String {
         })
         .collect();
     format!("[{}]", items.join(", "))
+}
+
+fn cfg_kind(attrs: &[Attribute]) -> Option<bool> {
+    // Some(true): #[cfg(feature = "verif")]   Some(false): #[cfg(not(feature = "verif"))]
+    for a in attrs {
+        if a.path().is_ident("cfg") {
+            let t = norm_tokens(&a.meta.to_token_stream());
+            if t == "cfg(feature=\"verif\")" {
+                return Some(true);
+            }
+            if t == "cfg(not(feature=\"verif\"))" {
+                return Some(false);
+            }
+        }
+    }
+    None
+}
+
+fn expr_attrs(e: &Expr) -> &[Attribute] {
+    match e {
+        Expr::Return(x) => &x.attrs,
+        Expr::MethodCall(x) => &x.attrs,
+        Expr::Call(x) => &x.attrs,
+        Expr::Block(x) => &x.attrs,
+        Expr::Macro(x) => &x.attrs,
+        Expr::If(x) => &x.attrs,
+        Expr::Path(x) => &x.attrs,
+        Expr::Assign(x) => &x.attrs,
+        _ => &[],
+    }
+}
+
+/// the body as compiled with the hook feature off: statements under `#[cfg(feature = "verif")]`
+/// are dropped, `#[cfg(not(feature = "verif"))]` attributes are erased (top level of the block)
+fn without_hooks(b: &Block) -> String {
+    let mut out = String::from("{");
+    for st in &b.stmts {
+        let attrs: &[Attribute] = match st {
+            Stmt::Local(l) => &l.attrs,
+            Stmt::Expr(e, _) => expr_attrs(e),
+            Stmt::Macro(m) => &m.attrs,
+            _ => &[],
+        };
+        match cfg_kind(attrs) {
+            Some(true) => continue,
+            Some(false) => {
+                let mut t = norm_tokens(&st.to_token_stream());
+                t = t.replacen("#[cfg(not(feature=\"verif\"))]", "", 1);
+                out.push_str(&t);
+            }
+            None => out.push_str(&norm_tokens(&st.to_token_stream())),
+        }
+    }
+    out.push('}');
+    out
 }
 
 #[derive(Debug, Clone, PartialEq)]
@@ -230,7 +289,7 @@ pub fn extract(repo: &std::path::Path) -> std::result::Result<String, String> {
     let srv_src = std::fs::read_to_string(repo.join("crates/glas/src/server.rs")).map_err(|e| format!("server.rs: {e}"))?;
     let srv = syn::parse_file(&srv_src).map_err(|e| format!("server.rs:{}: {e}", e.span().start().line))?;
     let mut methods = Vec::new();
-    for name in ["on_did_open", "on_did_change", "on_did_close", "set_vfs_file_content", "apply_vfs_change", "spawn_with_snapshot", "on_set_package_graph"] {
+    for name in ["on_did_open", "on_did_change", "on_did_close", "set_vfs_file_content", "apply_vfs_change", "spawn_with_snapshot", "spawn_update_diagnostics", "spawn_update_all_diagnostics", "on_set_package_graph"] {
         let f = find_fn(&srv, "Server", name).ok_or(format!("server.rs: Server::{name} not found"))?;
         let body = norm_tokens(&f.block.to_token_stream());
         methods.push((name.to_string(), lean_ops(&ops_of(&body))));
@@ -243,7 +302,7 @@ pub fn extract(repo: &std::path::Path) -> std::result::Result<String, String> {
     // request tasks read the live document store through snap.vfs()
     let state_vfs = srv_src.contains("self.vfs.read().unwrap()");
     let snap_vfs_fn = find_fn(&srv, "StateSnapshot", "vfs").ok_or("server.rs: StateSnapshot::vfs not found")?;
-    let snap_vfs_is_read = norm_tokens(&snap_vfs_fn.block.to_token_stream()) == "{self.vfs.read().unwrap()}";
+    let snap_vfs_is_read = without_hooks(&snap_vfs_fn.block) == "{self.vfs.read().unwrap()}";
     let handlers = handler_tasks(repo)?;
 
     let mut s = String::new();
